@@ -121,23 +121,11 @@ func (p *protocolV2) IOLoop(c protocol.Client) error {
 	return err
 }
 
-func (p *protocolV2) SendMessage(client *clientV2, msg *Message) error {
+// SendMessage writes an already encoded message (see messagePump) to the client
+func (p *protocolV2) SendMessage(client *clientV2, msg *Message, encoded []byte) error {
 	p.nsqd.logf(LOG_DEBUG, "PROTOCOL(V2): writing msg(%s) to client(%s) - %s", msg.ID, client, msg.Body)
 
-	buf := bufferPoolGet()
-	defer bufferPoolPut(buf)
-
-	_, err := msg.WriteTo(buf)
-	if err != nil {
-		return err
-	}
-
-	err = p.Send(client, frameTypeMessage, buf.Bytes())
-	if err != nil {
-		return err
-	}
-
-	return nil
+	return p.Send(client, frameTypeMessage, encoded)
 }
 
 func (p *protocolV2) Send(client *clientV2, frameType int32, data []byte) error {
@@ -357,12 +345,24 @@ func (p *protocolV2) messagePump(client *clientV2, startedChan chan bool) {
 				continue
 			}
 			msg.Attempts++
+			// encode the frame while the message still belongs to this goroutine
+			// alone: once it is in the in-flight set a REQ (by an id the client
+			// knows from an earlier delivery) or a timeout can hand it to another
+			// connection's pump, which increments Attempts - the frame written
+			// here then carried the other delivery's count
+			buf := bufferPoolGet()
+			_, err = msg.WriteTo(buf)
+			if err != nil {
+				bufferPoolPut(buf)
+				goto exit
+			}
 			// count the message before it becomes answerable: once it is in the
 			// in-flight set this client's FIN/REQ (by an id it knows from an earlier
 			// delivery) or a timeout can take it out again and decrement the count
 			client.SendingMessage()
 			subChannel.StartInFlightTimeout(msg, client.ID, msgTimeout)
-			err = p.SendMessage(client, msg)
+			err = p.SendMessage(client, msg, buf.Bytes())
+			bufferPoolPut(buf)
 			if err != nil {
 				goto exit
 			}
